@@ -15,15 +15,16 @@ MinLenFor(h) == IF h \in {1, 2, 3, 6} THEN {3} ELSE {4, 258}
 Vec(st, hs, zc, wb, h, mtc, d3, vf, ms, m, nice, chain, ml, pol) ==
   << st, hs, zc, wb, h[1], h[2], h[3], mtc, d3, vf, ms, m[1], m[2], nice, chain, ml, pol[1], pol[2] >>
 NoDict == { << st, hs, 1, 0, 0, 0, 0, 16386, 0, 0, 0, 0, 0, 0, 0, 0, 0, 0 >> : st \in {2, 3}, hs \in 0..2 }
-Dict == { Vec(st, hs, zc, wb, h, mtc, d3, vf, ms, m, nice, chain, ml, pol) :
-            st \in {0, 1}, hs \in (IF Wide THEN {0, 2} ELSE {0}), zc \in {0, 1}, wb \in {9, 15}, h \in Hashes,
-            mtc \in {127, 32767}, d3 \in (IF Wide THEN {0, 256, 32768} ELSE {0, 32768}),
-            vf \in (IF Wide THEN {0, 1} ELSE {0}), ms \in {0, 1},
-            m \in (IF Wide THEN { <<0, 0>>, <<4, 4>>, <<32, 258>> } ELSE { <<0, 0>>, <<32, 258>> }),
-            nice \in {8, 258}, chain \in (IF Wide THEN {1, 256, 4096} ELSE {1, 4096}),
-            ml \in {3, 4, 258}, pol \in Policies } 
-Range == NoDict \cup { v \in Dict : v[16] \in MinLenFor(v[5]) }
-Init == p \in Range
+\* (the vectors are enumerated by quantification, not as one set: the wide range has more elements
+\* than TLC is willing to hold in a set)
+Init == \/ p \in NoDict
+        \/ \E st \in {0, 1}, hs \in (IF Wide THEN {0, 2} ELSE {0}), zc \in {0, 1}, wb \in {9, 15}, h \in Hashes,
+              mtc \in {127, 32767}, d3 \in (IF Wide THEN {0, 256, 32768} ELSE {0, 32768}),
+              vf \in (IF Wide THEN {0, 1} ELSE {0}), ms \in {0, 1},
+              m \in (IF Wide THEN { <<0, 0>>, <<4, 4>>, <<32, 258>> } ELSE { <<0, 0>>, <<32, 258>> }),
+              nice \in {8, 258}, chain \in (IF Wide THEN {1, 256, 4096} ELSE {1, 4096}),
+              pol \in Policies :
+              \E ml \in MinLenFor(h[1]) : p = Vec(st, hs, zc, wb, h, mtc, d3, vf, ms, m, nice, chain, ml, pol)
 Next == UNCHANGED p
 Spec == Init /\ [][Next]_p
 FitsWidths == Fits(p)
